@@ -6,7 +6,7 @@
    [total_chunks items < 65536] is the u16 chunk counter guard (beyond it the Rust panics in the
    debug profile: the model's Crash). *)
 From Flipdot Require Import Tactics.
-From Flipdot Require Import Base Message Page SignType VSign Controller ProtoSpec ControllerP SourceP.
+From Flipdot Require Import Base Message Page SignType VSign Controller ProtoSpec ControllerP SourceP WeaveP.
 Local Open Scope N_scope.
 
 (* --- examples: the definitions compute what one expects, the hypotheses are satisfiable --- *)
@@ -162,3 +162,37 @@ Proof.
   split; [exact H|]. split; [exact (SourceP.peq_run_script _ _ H) | exact (SourceP.peq_run_bus _ _ H)].
 Qed.
 Print Assumptions C09_plain_source.
+
+(* A source whose conversations are for OTHER signs only ([WeaveP.fpre]: any number of programs that send addressed messages
+   for other addresses, each under [catch]).  Whatever it says on the bus, what the call itself sends -- the trace without
+   the messages for other signs, [own_part] -- is what send_pages over the plain list sends against the replies its own
+   messages got ([own_script]), or a prefix of that when the run ended inside one of the source's conversations.  So the
+   shape theorems above (C09_trace_shape, C09_ack_before_data, C09_prefix_order, C09_count), which hold of send_pages for
+   every script, describe the own part of every such run. *)
+Example C09_ex_own_part :
+  let p := send_pages_with 3 [([CopShutDown 7], page_new 1 2 8); ([], page_new 2 2 8)] in
+  let s := [Rep (Some (AckOperation 3 ReceivePixels)); Rep None; Rep None; Rep None; Rep None;
+            Rep (Some (ReportState 3 PixelsReceived)); Rep None; Rep (Some (ReportState 3 PageLoaded))] in
+  own_part 3 (fst (run_script p s))
+  = fst (run_script (send_pages 3 [page_new 1 2 8; page_new 2 2 8]) (own_script 3 p s))
+  /\ length (own_script 3 p s) = 7%nat.
+Proof. vm_compute. split; reflexivity. Qed.
+
+Theorem C09_own_part_of_talking_source : forall a src ps script,
+  Forall (fun it => fpre a (fst it)) src -> map snd src = map p_bytes ps ->
+  exists rest,
+    fst (run_script (send_pages a ps) (own_script a (send_pages_gen a src) script))
+    = own_part a (fst (run_script (send_pages_gen a src) script)) ++ rest.
+Proof. exact send_pages_gen_own_part. Qed.
+Print Assumptions C09_own_part_of_talking_source.
+
+(* The general statement behind it, with the outcomes. *)
+Theorem C09_weave_script : forall (A : Type) a (P Q : prog A),
+  weave a P Q ->
+  forall script,
+    (own_part a (fst (run_script P script)) = fst (run_script Q (own_script a P script))
+     /\ snd (run_script P script) = snd (run_script Q (own_script a P script)))
+    \/ ((snd (run_script P script) = BusFailed \/ snd (run_script P script) = Blocked)
+        /\ exists rest, fst (run_script Q (own_script a P script)) = own_part a (fst (run_script P script)) ++ rest).
+Proof. exact @weave_script. Qed.
+Print Assumptions C09_weave_script.
